@@ -347,6 +347,33 @@ class Interp:
             return   # dropped: stdout only
         self.eval(s.value, fr)
 
+    # context managers that only change how floating-point exceptions / warnings are REPORTED: no effect on values, the body is executed as is
+    NOOP_CONTEXTS = ("numpy.errstate", "warnings.catch_warnings", "numpy.testing.suppress_warnings")
+
+    def st_With(self, s, fr):
+        for item in s.items:
+            ce = item.context_expr
+            name = None
+            if isinstance(ce, ast.Call):
+                parts, f = [], ce.func
+                while isinstance(f, ast.Attribute):
+                    parts.append(f.attr); f = f.value
+                if isinstance(f, ast.Name):
+                    parts.append(f.id)
+                    head = frontend.resolve_name(fr.mod, f.id)
+                    if head is not None and head[0] == "ext":
+                        name = ".".join([head[1]] + list(reversed(parts[:-1])))
+                    elif head is not None and head[0] == "module":
+                        name = None
+            if name is None:
+                cand = ast.unparse(ce.func) if isinstance(ce, ast.Call) else ""
+                # aliases used in the repository: np.errstate / numpy.errstate
+                if cand.split(".")[-1] == "errstate" and cand.split(".")[0] in ("np", "numpy"):
+                    name = "numpy.errstate"
+            if name not in self.NOOP_CONTEXTS or item.optional_vars is not None:
+                raise Unsupported("with-statement over %s at %s:%d" % (ast.unparse(ce)[:40], fr.mod.relpath, s.lineno))
+        self.exec_block(s.body, fr)
+
     def st_Pass(self, s, fr):
         return
 
@@ -622,6 +649,13 @@ class Interp:
         raise Unsupported("resolution %s" % (r,))
 
     def ex_Attribute(self, e, fr):
+        if e.attr == "dtype" and isinstance(e.value, ast.Call) and isinstance(e.value.func, ast.Attribute) and e.value.func.attr in ("sum", "prod") \
+                and not e.value.args and not e.value.keywords:
+            # <array>.sum().dtype: the accumulator type NumPy chooses for the array's dtype (booleans and integers -> platform integer);
+            # a scalar of the value model does not carry its NumPy type, the array does
+            recv = self.eval(e.value.func.value, fr)
+            if isinstance(recv, Arr):
+                return DType({"float": "float64", "int": "int64", "bool": "int64", "complex": "complex128"}[recv.dtype])
         o = self.eval(e.value, fr)
         return self.getattr(o, e.attr)
 
@@ -667,6 +701,8 @@ class Interp:
                 return s_real(o)
             if name == "imag":
                 return s_imag(o)
+            if name == "dtype":
+                return DType({"float": "float64", "int": "int64", "complex": "complex128", "bool": "bool"}[npmodel.elem_dtype(o)])
             return BoundMethod(o, name)
         if isinstance(o, (list, dict, str, tuple)):
             return BoundMethod(o, name)
